@@ -62,6 +62,12 @@ def strat_history(draw, tier):
             bits = 8 * sv.fields[name].elem_size
             extra[name] = draw(st.one_of(st.integers(0, (1 << bits) - 1),
                                          st.just((1 << bits) - 1)))
+        # the three variables boot() sets itself may be named as well; the
+        # value they end up with is not judged, the rest of the call is
+        reserved = draw(st.sampled_from([None, None, None, "unix_time",
+                                         "boot_sig", "root_chip"]))
+        if reserved:
+            extra[reserved] = draw(st.sampled_from([0, 1, 0x5f000000]))
         size = draw(st.sampled_from([None, None, 512, 516, 1024, 1028, 2048,
                                      3000, 32764]))
         if size is not None and draw(st.booleans()):
@@ -196,17 +202,29 @@ def check_history(case):
                             dict(det, block=b, length=len(payload)))
                     got += struct.pack("<%dI" % len(words), *words)
                 # expected configuration area
+                named = [k for k in ("unix_time", "boot_sig", "root_chip")
+                         if k in options]
                 if t_call is None:
                     # via the controller: the time of the inner call is the
                     # one packed into the image; read it back
+                    src = "boot_sig" if "unix_time" in named else "unix_time"
                     t_used = struct.unpack_from(
-                        "<I", got, 384 + sv.fields["unix_time"].offset)[0]
-                    require(h.clock.now - 10 <= t_used <= h.clock.now,
-                            "unix_time is not the time of the boot", det)
+                        "<I", got[:512].ljust(512, b"\0"),
+                        384 + sv.fields[src].offset)[0]
+                    if len(named) < 2:
+                        require(h.clock.now - 10 <= t_used <= h.clock.now,
+                                "unix_time is not the time of the boot", det)
                 else:
                     t_used = int(t_call)
                 values = dict(options, unix_time=t_used, boot_sig=t_used,
                               root_chip=1)
+                for k in named:
+                    # named by the caller: whether the caller's or the boot's
+                    # own value wins is not specified - take what was sent
+                    f = sv.fields[k]
+                    values[k] = f.unpack(got[:512].ljust(512, b"\0")[
+                        384 + f.offset:384 + f.offset + f.size])
+                    classes.add("names-" + k)
                 conf = svstruct.pack_defaults(sv, values)[:128]
                 expect = image[:384] + conf + image[512:]
                 if got != expect:
